@@ -300,6 +300,7 @@ def inline_helpers(f, crate, depth=2, _callers=None, _counter=None, force=()):
     g["inlined"] = changed[0]
     if changed[0]:
         g["body"] = push_continuations(g["body"])
+        push_option_adapters(g["body"])
     return g
 
 
@@ -367,6 +368,86 @@ def _tail_leaves(e, out):
         else:
             out.append((holder, key, x.get("ty") == "!" or k in ("return", "ireturn", "break", "continue")))
     rec(e[0], e[1])
+
+
+def push_option_adapters(root):
+    """`<block / match / if whose every value is Some(v) or None>.ok_or_else(|| E)` (also ok_or, unwrap_or, unwrap_or_else) is the same block with
+    Some(v) -> Ok(v) / v and None -> Err(E) / the default: the adapter is pushed into the leaves (typical after a lookup helper was inlined)"""
+    def leaves(e, out):
+        e0 = e
+        while e0.get("k") == "blockexpr" and "tail" in e0["b"]:
+            holder = e0["b"]
+            e0 = holder["tail"]
+            last = (holder, "tail")
+        else:
+            last = None
+        k = e0.get("k")
+        if k == "match" and e0.get("src", "match") == "match":
+            return all(leaves_in(arm, "body", out) for arm in e0["arms"])
+        if k == "if" and "else" in e0:
+            return leaves_in(e0, "then", out) and leaves_in(e0, "else", out)
+        return False
+
+    def leaves_in(holder, key, out):
+        e = holder[key]
+        t = e
+        h, kk = holder, key
+        while t.get("k") == "blockexpr" and "tail" in t["b"] and not t["b"]["stmts"]:
+            h, kk = t["b"], "tail"
+            t = t["b"]["tail"]
+        if _diverges(t):
+            return True
+        if t.get("k") == "ctor" and (callee(t) or "").endswith("Option::Some") and len(t.get("args", [])) == 1:
+            out.append((h, kk, "some"))
+            return True
+        if t.get("k") == "def" and (t.get("path") or "").endswith("Option::None"):
+            out.append((h, kk, "none"))
+            return True
+        if t.get("k") in ("match", "if", "blockexpr"):
+            return leaves(t, out)
+        return False
+
+    def visit(holder, key):
+        n = holder[key]
+        if isinstance(n, list):
+            for i in range(len(n)):
+                visit(n, i)
+            return
+        if not isinstance(n, dict):
+            return
+        for k_ in list(n.keys()):
+            if k_ != "mac" and isinstance(n[k_], (dict, list)):
+                visit(n, k_)
+        if n.get("k") == "mcall" and n["name"] in ("ok_or", "ok_or_else", "unwrap_or", "unwrap_or_else") and "Option" in (n.get("path") or "") and len(n.get("args", [])) == 1:
+            recv = n["recv"]
+            r0 = recv
+            while r0.get("k") == "blockexpr" and "tail" in r0["b"]:
+                r0 = r0["b"]["tail"]
+            if r0.get("k") not in ("match", "if"):
+                return
+            out = []
+            if not leaves(recv, out) or not out:
+                return
+            d = n["args"][0]
+            if n["name"].endswith("_else"):
+                cl = d
+                while cl.get("k") in ("ref",):
+                    cl = cl["e"]
+                if cl.get("k") != "closure" or cl.get("params"):
+                    return
+                d = cl["body"]
+            for h, kk, what in out:
+                leaf = h[kk]
+                if n["name"].startswith("ok_or"):
+                    if what == "some":
+                        h[kk] = {"k": "ctor", "dk": "ctor_variant", "path": "core::result::Result::Ok", "args": leaf["args"], "ty": n.get("ty"), "sp": leaf.get("sp")}
+                    else:
+                        h[kk] = {"k": "ctor", "dk": "ctor_variant", "path": "core::result::Result::Err", "args": [copy.deepcopy(d)], "ty": n.get("ty"), "sp": leaf.get("sp")}
+                else:
+                    h[kk] = leaf["args"][0] if what == "some" else copy.deepcopy(d)
+            holder[key] = recv
+    wrapper = {"r": root}
+    visit(wrapper, "r")
 
 
 def push_continuations(root):
